@@ -229,6 +229,9 @@ package consensus
 //@ func WALDecoder.Decode
 //@   ensures intact: result1 == nil ==> (result0 != nil && actualCRC == crc && length <= maxMsgSizeBytes)
 //@   ensures nomsg: result1 != nil ==> result0 == nil
+// Completeness against the encoder (every record Encode accepts - payload up to maxMsgSizeBytes - gets past the
+// reader's length limit): some feasible path reaches the payload read with a buffer of exactly that size.
+//@   atcall Reader.Read cover_maxlen_at3: len(arg0) == maxMsgSizeBytes
 
 // A synced write reports success only after the record went to the writer and the group was flushed and fsynced after it.
 //@ func BaseWAL.Write
